@@ -87,15 +87,14 @@ uint64_t token_bits(const Tok& t) {
 // the default search and counts it; VF_ALLOW_KNOWN=1 disables all guards (the oracles then fail on
 // the unchanged tree and show the defect).
 struct Known {
-  // VF_ALLOW_KNOWN=1 (all) or a list such as VF_ALLOW_KNOWN=f3,f7 (only those shapes re-enabled)
-  bool allow = false, allow_f3 = false, allow_f4 = false, allow_f4b = false, allow_f7 = false;
+  // VF_ALLOW_KNOWN=1 (all) or a list such as VF_ALLOW_KNOWN=f3,f4b (only those shapes re-enabled)
+  bool allow = false, allow_f3 = false, allow_f4 = false, allow_f4b = false;
   void parse(const char* s) {
     if (!s) return;
     allow = s[0] == '1';
     allow_f3 = allow || strstr(s, "f3");
     allow_f4b = allow || strstr(s, "f4b");
     allow_f4 = allow || strstr(s, "f4,") || (strstr(s, "f4") && !strstr(s, "f4b")) || strstr(s, "f4b,f4");
-    allow_f7 = allow || strstr(s, "f7");
   }
   // F3: Futex::Awaitable::await_suspend emplaces a DepositBox slot and never releases it when
   //     add_awaiter refuses the wait (value mismatch): one slot leaked per non-suspending wait.
@@ -108,11 +107,8 @@ struct Known {
   //     Guard: wake calls and the registration window of a wait that carries a callback exclude
   //     each other (harness gate).
   bool known_f4_on_suspend_after_visible() const { return !allow_f4b; }
-  // F7: Futex::wake_all reads node->next after finish_released(node->id): a wait that starts
-  //     meanwhile reuses the slot, the walk ends early (or enters the live list): taken waiters are
-  //     never resumed / live waiters are resumed without being taken.
-  //     Guard: a new wait does not start while a wake_all is in flight (same gate, all waits).
-  bool known_f7_wake_all_reads_released_node() const { return !allow_f7; }
+  // (suspected, not guarded because this engine cannot reach it: Futex::wake_all reads node->next after
+  //  finish_released(node->id); there is no schedule point between the release CAS and that plain load)
 };
 
 // ---------------------------------------------------------------------------------------------
@@ -323,7 +319,7 @@ struct World {
   std::deque<WakeRec> wakes;
   std::deque<CancelRec> cancels;
   std::vector<int> published;  // per waiter: index of the wait whose token was published last, -1
-  std::mutex gate;             // registration gate (known_f4b / known_f7 guards)
+  std::mutex gate;             // registration gate (known_f4_on_suspend_after_visible guard)
   int wakes_in_flight = 0;
 
   // B / C
@@ -354,7 +350,6 @@ void ExBase::run(MoveOnlyFunction<void(void)>& f) {
 // ---------------------------------------------------------------------------------------------
 // scenario A: futex
 bool gate_waits_with_callback() { return W->known.known_f4_on_suspend_after_visible(); }
-bool gate_all_waits() { return W->known.known_f7_wake_all_reads_released_node(); }
 
 int begin_wait(int idx, int k) {
   World* w = W;
@@ -364,7 +359,7 @@ int begin_wait(int idx, int k) {
   r.k = k;
   r.expected = p.expected;
   r.cbmode = p.cbmode;
-  bool need_gate = gate_all_waits() || (p.cbmode != CB_NONE && gate_waits_with_callback());
+  bool need_gate = p.cbmode != CB_NONE && gate_waits_with_callback();
   // a wait that starts inside this thread's own gated window (resumed inline by the wake call or
   // by a cancel inside the callback) is already protected from the other threads
   bool take = need_gate && !tl_gate_owned;
@@ -499,7 +494,7 @@ void do_cancel_A(int wi, bool inside) {
 
 void do_wake(bool all) {
   World* w = W;
-  bool gated = (all ? (gate_all_waits() || gate_waits_with_callback()) : gate_waits_with_callback()) && !tl_gate_owned;
+  bool gated = gate_waits_with_callback() && !tl_gate_owned;
   if (gated) {
     w->gate.lock();
     tl_gate_owned = true;
